@@ -179,7 +179,13 @@ class Predict(object):
                 return [ev[2]] if ev[2] in E.LAZY_GROUPS else []
             return [ev[2]] if ev[2] in E.LAZY_GROUPS else []
         if k == "probe" and ev[3] in ("getmembers", "dirsweep"):
-            return list(E.LAZY_GROUPS)
+            # dir() of an atom lists the class attributes of its own class only
+            Z, A, q = ev[2]
+            if q:
+                return ["xray"]
+            if A:
+                return ["neutron", "activation"]
+            return [g for g in E.LAZY_GROUPS if g != "activation"]
         if k == "mutate":
             g = MUTATE_GROUP.get(ev[3])
             return [g] if g in E.LAZY_GROUPS else []
